@@ -39,6 +39,7 @@ type scenario struct {
 	Overlap    bool   `json:"close_overlaps_writers"`
 	Tight      bool   `json:"tight_writers,omitempty"`
 	Reuse      bool   `json:"caller_reuses_its_slice,omitempty"`
+	SlowStore  int    `json:"slow_sent_storage_us,omitempty"`
 	CloseUs    int    `json:"close_after_us,omitempty"`
 	Procs      int    `json:"gomaxprocs"`
 }
@@ -95,6 +96,9 @@ func gen(c *vrun.Case) scenario {
 	s.Overlap = r.Intn(6) == 0
 	s.Procs = []int{1, 2, 4, 16}[r.Intn(4)]
 	s.Reuse = r.Intn(3) == 0 && os.Getenv("VERIF_NO_SLICE_REUSE") == ""
+	if r.Intn(4) == 0 {
+		s.SlowStore = []int{50, 300, 1500}[r.Intn(3)]
+	}
 	return s
 }
 
@@ -219,7 +223,12 @@ func runCase(c *vrun.Case, s scenario) vrun.Result {
 	if s.Encoding == "json" {
 		enc = iscp.EncodingNameJSON
 	}
-	conn, err := w.Connect(iscp.WithConnEncoding(enc), iscp.WithConnPingInterval(time.Hour))
+	copts := []iscp.ConnOption{iscp.WithConnEncoding(enc), iscp.WithConnPingInterval(time.Hour)}
+	if s.SlowStore > 0 {
+		d := time.Duration(s.SlowStore) * time.Microsecond
+		copts = append(copts, iscp.VerifWithSentStorage(uplib.NewSlowStorage(d, d, d)))
+	}
+	conn, err := w.Connect(copts...)
 	if err != nil {
 		return vrun.Inconcl("connect failed: " + err.Error())
 	}
